@@ -111,6 +111,10 @@ func genFlattenCase(prop string, thorough bool, r *R, seed uint64, index int64) 
 			nPert = 5
 		}
 	}
+	if prop == "C04" && contains(c.Features, "mangleTwins") {
+		// nested de-duplication artefacts: the outcome of their merging is the most order-sensitive part of Flatten
+		nPert += 6
+	}
 	c.Schedules = append(c.Schedules, Schedule{Seed: 0, PerturbP: 0})
 	for i := 0; i < nPert; i++ {
 		c.Schedules = append(c.Schedules, perturbedSchedule(r))
